@@ -61,14 +61,34 @@ where
     }
 
     /// Add new constraint `c` while keeping the store normalized
-    pub fn push_and_normalize(&mut self, newc: Rc<dyn Constraint<U, E>>) {
+    /// Adds `newc` to the store, keeping the store free of redundant disequality constraints.
+    /// Returns the constraints that were dropped as redundant: stored constraints implied by
+    /// `newc`, or `newc` itself when a stored constraint already implies it.
+    pub fn push_and_normalize(
+        &mut self,
+        newc: Rc<dyn Constraint<U, E>>,
+    ) -> Vec<Rc<dyn Constraint<U, E>>> {
+        let mut dropped = vec![];
         if let Some(tree_newc) = newc.downcast_ref::<DisequalityConstraint<U, E>>() {
+            // If a stored constraint already implies the new one, the new one is redundant.
+            let implied = self.0.iter().any(|storec| {
+                storec
+                    .downcast_ref::<DisequalityConstraint<U, E>>()
+                    .map_or(false, |tree_storec| tree_storec.subsumes(tree_newc))
+            });
+            if implied {
+                dropped.push(newc);
+                return dropped;
+            }
+
+            // Stored constraints implied by the new one are redundant.
             let mut normalized = HashSet::new();
             for storec in self.0.drain() {
-                // All non-subsumable constraints are always carried along
                 if let Some(tree_storec) = storec.downcast_ref::<DisequalityConstraint<U, E>>() {
-                    if !tree_storec.subsumes(tree_newc) && !tree_newc.subsumes(tree_storec) {
+                    if !tree_newc.subsumes(tree_storec) {
                         normalized.insert(storec);
+                    } else {
+                        dropped.push(storec);
                     }
                 } else {
                     normalized.insert(storec);
@@ -77,13 +97,13 @@ where
             self.0 = normalized;
         }
         self.insert(newc);
+        dropped
     }
 
-    /// Remove redundant constraints from the store
     pub fn normalize(self) -> ConstraintStore<U, E> {
         let mut normalized_store = ConstraintStore::new();
         for storec in self.0.into_iter() {
-            normalized_store.push_and_normalize(storec.into());
+            let _ = normalized_store.push_and_normalize(storec.into());
         }
         normalized_store
     }
